@@ -205,6 +205,13 @@ def model_check(ctx, module, cfg, workers=8, heap="6g", timeout=3600, label=None
     return r
 
 
+def model_check_many(ctx, runs, workers_each=2, heap="3g", timeout=3600):
+    """several bounded model-checking runs in parallel: runs = [(module, cfg), ...]"""
+    def job(r):
+        return lambda: model_check(ctx, r[0], r[1], workers=workers_each, heap=heap, timeout=timeout, label=r[1])
+    run_pool([job(r) for r in runs], workers=max(1, 14 // workers_each))
+
+
 def mutant_refuted(ctx, module, cfg_text_path, label):
     """A Bug_* mutant of M must be refuted by TLC (negative control / non-vacuity)."""
     r = tlc(module, cfg_text_path, ctx.path("mut_" + label), workers=4, heap="3g", timeout=900, serial=False,
